@@ -36,9 +36,11 @@ ASSUMPTIONS = [
     "the read size (4096) is not a parameter of the model: the theorems hold for every chunk list, so also for every list of "
     "chunks of at most n bytes; that the task decodes after EVERY read whatever its length is tied by the correspondence "
     "(fake socket that honours n, bursts that make reads return exactly n bytes) and judged by the oracle",
-    "several connections on one object: the model of a connection is `feedAll` from the EMPTY buffer, stopped at the frame "
-    "whose processing disconnects (Logout); that disconnect() empties the buffer for every way a connection can end and for "
-    "both roles is covered by correspondence + oracle only (harness/c03_hist.py), not by a theorem",
+    "several connections on one object: the model of ONE connection is `feedAll` from the EMPTY buffer over the reads of that "
+    "connection; a connection cut off before its stream is complete is covered by theorem reader_truncated_stream (exactly the "
+    "frames that arrived completely are handed over, for every chunking); that the loop stops at the frame whose processing "
+    "disconnects (Logout) and that disconnect() empties the buffer for every way a connection can end and for both roles is "
+    "covered by correspondence + oracle only (harness/c03_hist.py), not by a theorem",
     "every valid frame decodes on its own (hypothesis `∃ m, decode bs tbl f = .msg m …` of the theorems; discharged by the "
     "C10/C01 no-raise + round-trip theorems, composed at integration) – sampled here by the oracle on every generated frame",
 ]
